@@ -36,11 +36,33 @@ func calc(numLeaves uint64, hashes []Hash, proof Proof) ([]uint64, []Hash, error
 
 func maxPos(numLeaves uint64) uint64 { return 2 * numLeaves }
 
+var empty Hash
+
+func checkNoEmpty(delHashes []Hash, proof Proof) error {
+	for _, h := range delHashes {
+		if h == empty {
+			return errors.New("empty hash")
+		}
+	}
+	for _, h := range proof.Proof {
+		if h == empty {
+			return errors.New("empty proof hash")
+		}
+	}
+	return nil
+}
+
 func Verify(stump Stump, delHashes []Hash, proof Proof) ([]int, error) {
 	if len(delHashes) != len(proof.Targets) { return nil, errors.New("length mismatch") }
-	_, cands, err := calc(stump.NumLeaves, delHashes, proof)
+	if err := checkNoEmpty(delHashes, proof); err != nil {
+		return nil, err
+	}
+	positions, cands, err := calc(stump.NumLeaves, delHashes, proof)
 	if err != nil {
 		return nil, err
+	}
+	if len(positions) != len(cands) {
+		return nil, errors.New("positions")
 	}
 	idx := make([]int, 0, len(cands))
 	for i := range stump.Roots {
